@@ -561,9 +561,14 @@ fn forest_strategy(_t: Tier) -> BoxedStrategy<ForestCase> {
                 Just((0..nv).collect::<Vec<usize>>()).prop_shuffle(),
                 proptest::collection::vec((any::<u16>(), 1usize..=3, prop::bool::weighted(0.12)), nv),
                 proptest::collection::vec(-4.0f64..4.0, nv),
+                // one erased bit (channel LLR exactly 0.0, as a punctured position has) in a third of the cases
+                proptest::option::weighted(0.33, any::<u16>()),
             )
         })
-        .prop_map(|(nv, order, steps, llrs)| {
+        .prop_map(|(nv, order, steps, mut llrs, erase)| {
+            if let Some(a) = erase {
+                llrs[idx(a, nv)] = 0.0;
+            }
             let mut placed: Vec<usize> = vec![order[0]];
             let mut next = 1;
             let mut rows: Vec<Vec<usize>> = Vec::new();
@@ -787,6 +792,7 @@ fn check_forest(case: &ForestCase, p: &mut Probe) -> Check {
     p.inner += 8;
     let deep = tree_depth_ge2(&case.h);
     p.class_if(deep, "depth>=2");
+    p.class_if(case.llrs.iter().any(|l| l.0 == 0.0), "erased-bit");
     p.class_if(n0 >= 6, "tree-variables>=6");
     if deep {
         p.nontrivial();
@@ -816,7 +822,7 @@ pub fn property() -> Property {
             }),
             Box::new(Sub {
                 name: "exactness",
-                rule: "random bipartite forests (2..=12 variables, checks of degree 2..=4 attached to existing trees, occasionally a new tree; acyclicity asserted with the own girth oracle) plus a 3-variable single-check gadget with LLRs (1, 1, -0.5) that forces the run to the limit; channel LLRs uniform in +-4; Tracing<Phif64|Tanhf64|Phif32|Tanhf32> in both schedules for 2 x (number of nodes) iterations; recorded per-bit LLRs vs brute-force posteriors over all codewords within 16*eps*((E+1)*U + |L| + 4), U = worst-edge error unit (d + sum phi(|x_j|)) sinh|y| + d + |y| + max|x_j| taken from an own sum-product run that is itself checked against the enumeration; non-trivial = a tree two checks deep",
+                rule: "random bipartite forests (2..=12 variables, checks of degree 2..=4 attached to existing trees, occasionally a new tree; acyclicity asserted with the own girth oracle) plus a 3-variable single-check gadget with LLRs (1, 1, -0.5) that forces the run to the limit; channel LLRs uniform in +-4, in a third of the cases one of them exactly 0.0 (an erased / punctured bit); Tracing<Phif64|Tanhf64|Phif32|Tanhf32> in both schedules for 2 x (number of nodes) iterations; recorded per-bit LLRs vs brute-force posteriors over all codewords within 16*eps*((E+1)*U + |L| + 4), U = worst-edge error unit (d + sum phi(|x_j|)) sinh|y| + d + |y| + max|x_j| taken from an own sum-product run that is itself checked against the enumeration; non-trivial = a tree two checks deep",
                 cases: |t| t.pick(40_000, 1_500_000),
                 strategy: forest_strategy,
                 check: check_forest,
